@@ -71,6 +71,27 @@ def case_history(R, D, n, seed_key, diag):
     return Case(label, fn)
 
 
+def case_large_n(seed_key):
+    """more than 2**20 draws in one call (implementation only, nothing goes through the protocol): still mu + L z of the
+    key's normal stream, no block repeats"""
+    label = f"sample-large-n/key{seed_key}"
+    def fn(m):
+        from gaussian_toolbox import pdf as gt_pdf
+        fails = []
+        n = 2 ** 20 + 5
+        p = gt_pdf.GaussianPDF(Sigma=jnp.asarray([[[2.25]]]), mu=jnp.asarray([[0.5]]))
+        x = np.asarray(p.sample(jax.random.PRNGKey(seed_key), n))
+        z = np.asarray(jax.random.normal(jax.random.PRNGKey(seed_key), (n, 1, 1)))
+        params = dict(n=n, key=seed_key)
+        if x.shape != (n, 1, 1):
+            fails.append(failure(PROPERTY, "sample:large-n", f"shape {x.shape}", params=params)); return fails
+        fail_if(fails, PROPERTY, "sample:large-n", "draws are not mu + chol(Sigma) z for n > 2**20", x[-64:], 0.5 + 1.5 * z[-64:], params=params)
+        if np.array_equal(x[:5], x[2 ** 20:2 ** 20 + 5]):
+            fails.append(failure(PROPERTY, "sample:large-n", "draw i equals draw i + 2**20 (a block of the stream is repeated)", params=params))
+        return fails
+    return Case(label, fn)
+
+
 def case_statistical(R, D, seed_key):
     label = f"sample-moments/R{R}/D{D}/key{seed_key}"
     def fn(m):
@@ -105,6 +126,7 @@ def cases(seed, tier):
     for i, (R, D, n, dg, st) in enumerate(grid):
         out.append(case_structural(R, D, n, int(rng.integers(0, 1000)) + i, dg, st))
     out.append(case_history(3, 2, 3, 5, True)); out.append(case_history(2, 3, 2, 6, False))
+    out.append(case_large_n(3))
     if tier != "quick":
         out.append(case_history(4, 4, 3, 7, True))
         out.append(case_statistical(2, 3, 11)); out.append(case_statistical(3, 2, 12))
